@@ -139,7 +139,8 @@ func (m *MergeExp) filter(t Type, lookup *TypeLookup) (Exp, error) {
 					FormatExp(m, "")),
 			}
 		}
-		innerType = t.Elem
+		// The elements of a multi-dimensional array are arrays.
+		innerType = lookup.GetArray(t, -1)
 	case *TypedMapType:
 		if m.MergeOver.CallMode() == ModeArrayCall {
 			return m, &IncompatibleTypeError{
